@@ -43,8 +43,9 @@ ASSUMPTIONS = [
     'bounding-box edges are kept >= 1e-3 degrees away from every airport (the spatial index stores float32)',
     'sampling: subset + size within a 6-sigma binomial band (exactly all rows for 1.0); sampled queries are '
     'exempt from the run-again-equality clause, not from the size band; sample with limit only checks subset/order/size<=limit; '
-    'the band presupposes independent per-instance sampling: a result in which every matching flight is complete or absent '
-    '(probability < 1e-12 under independent sampling) is reported as sample-unit instead of judging its size',
+    'the band presupposes independent per-instance sampling: when all instances of a flight (or of an origin or destination '
+    'airport) come back together or not at all (this answer plus up to 12 further answers; probability < 1e-9 under '
+    'independent sampling; units seen present and absent) the case is reported as sample-unit instead of judging its size',
     'invalid scalar parameters (sample outside (0,1], every_nth<1, limit<1, offset<0, offset without limit) are '
     'only classified (refused/accepted), not judged; an illegal spatial mix must raise ValueError (class docstring)',
     'empty lists for spatial fields and mutation of a query object after its first use are outside the space',
@@ -52,7 +53,7 @@ ASSUMPTIONS = [
 
 F_EMPTY = 'C14-empty-filter-valueerror'
 F_ACCUM = 'C14-query-conditions-accumulate'
-F_CLUSTER = 'C14-sample-per-flight'
+F_UNIT = 'C14-sample-unit-outer-loop'
 
 _S: dict = {}
 
@@ -330,6 +331,11 @@ def sublattices(tier, seed):
             for f in pf:
                 for a, b in dd:
                     for smp in samples:
+                        if p == 'interleave' and smp is not None and smp < 1.0:
+                            # two partly read streams of a *random* subset: any defect there shows up
+                            # differently on every execution (not replayable); the deterministic
+                            # members of the axis cover the protocol
+                            continue
                         for l, o in ([None, None], [5, 0]):
                             cases.append(_case(db, 'query', dict(f) if f is not None else None, a, b, limit=l, offset=o, sample=smp, proto=p))
                     cases.append(_case(db, 'count', dict(f) if f is not None else None, a, b, proto=p))
@@ -337,7 +343,7 @@ def sublattices(tier, seed):
         add(
             f'{db}: usage protocol x kind x sample x filter x dates',
             {'protocol': {k: v for k, v in PROTOS.items()}, 'filter': pf, 'dates': dd, 'sample': samples, 'limit': [None, 5],
-             'kind': ['query', 'count', 'freq3']},
+             'kind': ['query', 'count', 'freq3'], 'excluded': 'interleave x sample in (0,1)'},
             cases,
         )  # fmt: skip
 
@@ -387,6 +393,17 @@ def sublattices(tier, seed):
                 [
                     _case(db, k, {**s, **n}, a, b, limit=lim)
                     for s in legal for n in nl[1:] for a in fx['start'] for b in fx['end'] for k, lim in kinds3
+                ],
+            )  # fmt: skip
+            # T2 spatial x every_nth x limit/offset x dates
+            st3 = [None, fx['F'], fx['I']]
+            en3 = [None, fx['L'], fx['I9']]
+            add(
+                f'{db}: legal spatial x every_nth x limit/offset x start x end',
+                {'spatial': legal, 'every_nth': [None, 2, 7], 'limit_offset': LIMOFF, 'start': st3, 'end': en3},
+                [
+                    _case(db, 'query', dict(s) if s else None, a, b, nth=n, limit=l, offset=o)
+                    for s in legal for n in (None, 2, 7) for l, o in LIMOFF for a in st3 for b in en3
                 ],
             )  # fmt: skip
     return subs
@@ -551,6 +568,54 @@ def _check_rows(tab, R, case):
     return vio, ids, tss
 
 
+_UNITS = (
+    ('flight', lambda x: x['flight_id']),
+    ('origin airport', lambda x: x['o']['code']),
+    ('destination airport', lambda x: x['d']['code']),
+)
+
+
+def _sampling_unit(tab, case, E, ids, eset, smp, offset, db):
+    """Is the sampling test applied once per instance?  The size band presupposes it.  If instead
+    all matching instances of one flight (or of one origin / destination airport) come back
+    together or not at all - in this answer and, where that alone is not yet conclusive, in up to
+    12 further answers of the same query value (fresh objects) - although independent sampling
+    would produce such answers with probability < 1e-9, and units were seen both present and
+    absent, the test ran once per that unit: the size then has a far wider distribution than "the
+    expected size" and the case is reported as 'sample-unit' instead of being judged against the
+    band.  Returns (unit name, further answers used, number of units) or None."""
+    stats = {}
+    for name, key in _UNITS:
+        per = Counter(key(x) for x in E)
+        logp = sum(math.log(smp**c + (1 - smp) ** c) for c in per.values() if c >= 2)
+        if logp < 0:
+            stats[name] = dict(key=key, per=per, logp=logp, total=0.0, present=False, absent=False)
+    answer, extra = ids, 0
+    while stats:
+        for name in list(stats):
+            st = stats[name]
+            got = Counter(st['key'](tab.by_id[i]) for i in answer)
+            if not all(got.get(g, 0) in (0, c) for g, c in st['per'].items()):
+                del stats[name]  # a unit came back partly: not the sampling unit
+                continue
+            st['total'] += st['logp']
+            st['present'] = st['present'] or len(got) > 0
+            st['absent'] = st['absent'] or len(got) < len(st['per'])
+            if st['total'] < math.log(1e-9) and st['present'] and st['absent']:
+                return name, extra, len(st['per'])
+        if not stats or extra >= 12:
+            break
+        extra += 1
+        try:
+            answer = [x.id for x in db(_make_query(case, _make_filter(case.get('filter')), offset))]
+        except Exception:
+            break
+        if any(i not in eset for i in answer):
+            break
+    return None
+
+
+
 def _check_query(tab, case, E, r, offset, db):
     R = r['res']
     vio, ids, tss = _check_rows(tab, R, case)
@@ -568,35 +633,16 @@ def _check_query(tab, case, E, r, offset, db):
                 vio.append(V('limit-offset-slice', f'{len(ids)} rows with limit {limit}'))
             return vio
         if smp < 1.0:
-            # Sampling unit.  The size band below presupposes that the sampling test is applied to
-            # each instance independently.  If instead every matching flight is returned with all
-            # of its instances or with none, although independent sampling would produce that
-            # pattern with probability < 1e-12, the test ran once per flight: the size then has a
-            # far wider distribution than "the expected size" and is not judged separately.
-            per_flight = Counter(x['flight_id'] for x in E)
-            logp = sum(math.log(smp**c + (1 - smp) ** c) for c in per_flight.values() if c >= 2)
-            probe = ids
-            if not probe and logp < math.log(1e-12):
-                # an empty answer shows no pattern: look at up to 8 further answers of the same
-                # query value (fresh objects) and judge the first non-empty one
-                for _ in range(8):
-                    try:
-                        probe = [x.id for x in db(_make_query(case, _make_filter(case.get('filter')), offset))]
-                    except Exception:
-                        probe = []
-                    if probe:
-                        break
-                if any(i not in eset for i in probe):
-                    probe = []
-            got = Counter(tab.by_id[i]['flight_id'] for i in probe)
-            if probe and logp < math.log(1e-12) and all(got.get(f, 0) in (0, c) for f, c in per_flight.items()):
+            unit = _sampling_unit(tab, case, E, ids, eset, smp, offset, db)
+            if unit:
                 vio.append(
                     V(
                         'sample-unit',
-                        f'sample={smp} of {n} matching instances ({len(per_flight)} flights) returned {len(ids)}: all {len(got)} '
-                        f'returned flights are complete, none partly - the sampling test ran once per flight, not per instance '
-                        f'(size band for independent sampling {ref.binom_band(n, smp)})',
-                        finding=F_CLUSTER,
+                        f'sample={smp} of {n} matching instances returned {len(ids)}; in this and {unit[1]} further answers of the '
+                        f'same query all instances of one {unit[0]} ({unit[2]} of them match) came back together or not at all - '
+                        f'the sampling test ran once per {unit[0]}, not per instance (size band for independent sampling '
+                        f'{ref.binom_band(n, smp)})',
+                        finding=F_UNIT,
                     )
                 )
                 return vio
